@@ -7,7 +7,9 @@ Three parties on every generated exchange (user name, setup code, salt, ephemera
     proved equal to the Z model), evaluated by `vm_compute` in generated files (common.coq_eval);
   * the oracle: harness/ref/srp_ref.py, an accessory written from RFC 5054 + the HAP rules.
 Streams: constants, SHA-512 (model vs hashlib vs Srp.digest), to_byte_array / pad_left, exchanges
-(directed search for leading-zero A, B, S, K, M1, M2, zero salts; wrong setup code; malformed input).
+(directed search for leading-zero A, B, S, K, M1, M2, zero salts; wrong setup code; malformed input), session sequences
+(exchanges one after the other in this process), live objects (stream `concurrent`: several SrpClient objects, pair-setup
+generators and a SrpServer alive at the same time, their calls interleaved; model Model/SrpSession.v), SrpServer.
 """
 from __future__ import annotations
 
@@ -1248,6 +1250,7 @@ def run(ctx):
     workers = int(os.environ.get("VERIF_C02_WORKERS", "10" if tier == "quick" else "12"))
     cov = Coverage("exchange: distinct (code, server code, salt, a, b, B_b) for which all three parties produced a result; "
                    "sequence: every step of every session sequence (a step is a distinct history); "
+                   "concurrent: every scenario (objects + interleaved schedule of public calls) of the live-objects stream; "
                    "srpserver: distinct (code, salt, b, client public key, path) on which SrpServer, model and reference ran; "
                    "sha512: distinct message; to_byte_array/pad_left: distinct argument tuple")
     viols = []
